@@ -52,6 +52,13 @@ def enumerate_cases(tier, seed):
     if cfg["cls"] in ("quantized_bits", "quantized_linear") and cfg["bits"] - int(bool(cfg["keep_negative"])) == 0:
       continue
     cases.append(dict(stoch=True, **cfg))
+  # constant PER-CHANNEL scales (alpha given as a vector of unequal powers of two, a documented use): channel c must
+  # behave as the scalar configuration alpha[c], and min()/max() must enclose the outputs of every channel
+  for cfg in fp.configs(4 if tier == "quick" else 6, classes=("quantized_bits", "quantized_linear")):
+    if cfg["alpha"] != 1.0:
+      continue
+    for pc in ([1.0, 0.25, 0.5], [0.5, 2.0, 1.0]):
+      cases.append(dict(cfg, alpha=None, pc=pc))
   return cases
 
 
@@ -114,8 +121,62 @@ def run_stochastic(cfg, f, x, tags):
           "sample": {"cfg": cfg, "stochastic": True, "draws": STOCH_ANSWERS}}
 
 
+def run_per_channel(cfg):
+  tf = common.tf_init()
+  from qkeras import quantizers as Q  # pylint: disable=import-outside-toplevel
+  pc = cfg["pc"]
+  base = {k: v for k, v in cfg.items() if k != "pc"}
+  fs = [fp.fmt(dict(base, alpha=a)) for a in pc]
+  x1 = np.unique(np.concatenate([fp.alphabet(dict(base, alpha=a)) for a in pc]))
+  # the stated horizon |x| < 2^24 steps holds for EVERY channel's step (the union alphabet contains the large points
+  # of the coarsest channel)
+  x1 = x1[np.abs(x1.astype(np.float64)) < (2.0 ** 24 - 1) * min(min(f["step"], f.get("runit", f["step"])) for f in fs)]
+  x = np.stack([x1] * len(pc), axis=-1)
+  # quantized_bits compares alpha with a string, which a numpy vector does not support: a plain list there
+  q = getattr(Q, cfg["cls"])(bits=cfg["bits"], integer=cfg["integer"], symmetric=cfg["symmetric"],
+                             keep_negative=cfg["keep_negative"],
+                             alpha=list(pc) if cfg["cls"] == "quantized_bits" else np.array(pc, dtype=np.float32))
+  y = np.asarray(q(tf.constant(x)), dtype=np.float64)
+  viol = []
+
+  def bad(clause, what):
+    if len(viol) < 6 and not any((":" + clause + ":per-channel") in v["key"] for v in viol):
+      viol.append({"key": "%s:%s:per-channel%s" % (cfg["cls"], clause, ":alpha>1" if max(pc) > 1 else ""), "what": "%s %s (per-channel alpha %r): %s" % (
+          cfg["cls"], clause, pc, what), "detail": {"cfg": cfg}})
+  qmin, qmax = np.asarray(fp.to_f(q.min()), dtype=np.float64).reshape(-1), np.asarray(fp.to_f(q.max()), dtype=np.float64).reshape(-1)
+  distinct = 0
+  for c, f in enumerate(fs):
+    yc = y[:, c]
+    if f["sign"]:
+      ok = np.isin(yc, np.asarray(f["allowed"], dtype=np.float64))
+      if not ok.all():
+        i = int(np.flatnonzero(~ok)[0])
+        bad("code-set", "channel %d: output %r at x=%r not in %r" % (c, float(yc[i]), float(x1[i]), f["allowed"]))
+    else:
+      k = yc / f["step"]
+      if (k != np.round(k)).any():
+        i = int(np.flatnonzero(k != np.round(k))[0])
+        bad("multiple-of-step", "channel %d: output %r at x=%r is not a multiple of the channel's step %r" % (c, float(yc[i]), float(x1[i]), f["step"]))
+      elif ((k < f["lo"]) | (k > f["hi"])).any():
+        i = int(np.flatnonzero((k < f["lo"]) | (k > f["hi"]))[0])
+        bad("code-range", "channel %d: code %r at x=%r outside [%d,%d]" % (c, float(k[i]), float(x1[i]), f["lo"], f["hi"]))
+    lo_c = qmin[c] if qmin.size == len(pc) else qmin.min()
+    hi_c = qmax[c] if qmax.size == len(pc) else qmax.max()
+    if yc.min() < lo_c:
+      bad("min()", "channel %d: output %r is below min() = %r" % (c, float(yc.min()), qmin.tolist()))
+    if yc.max() > hi_c:
+      bad("max()", "channel %d: output %r is above max() = %r" % (c, float(yc.max()), qmax.tolist()))
+    distinct += len(np.unique(yc))
+  common.reset_keras()
+  return {"evals": int(y.size), "transitions": len(pc), "nontrivial": int(distinct > len(pc)),
+          "state": "pc" + repr(sorted((k, repr(v)) for k, v in cfg.items())), "digest": common.digest(y.astype(np.float32), qmin, qmax),
+          "violations": viol, "traces": 0, "sample": {"cfg": cfg, "per_channel": True, "alphabet_size": int(x1.size)}}
+
+
 def run_case(cfg):
   cfg = dict(cfg)
+  if cfg.get("pc"):
+    return run_per_channel(cfg)
   tf = common.tf_init()
   common.reset_keras()
   f = fp.fmt(cfg)
